@@ -494,8 +494,10 @@ impl Source {
     /// Return the Vcs used by the package
     pub fn vcs(&self) -> Option<crate::vcs::Vcs> {
         for (name, value) in self.0.items() {
-            if name.starts_with("Vcs-") && name != "Vcs-Browser" {
-                return crate::vcs::Vcs::from_field(&name, &value).ok();
+            if let Some(vcs_name) = name.strip_prefix("Vcs-") {
+                if vcs_name != "Browser" {
+                    return crate::vcs::Vcs::from_field(vcs_name, &value).ok();
+                }
             }
         }
         None
